@@ -12,23 +12,23 @@ TECH = {
     "C01": "call-graph reachability + registry/signature table comparison (AST)",
     "C02": "explicit-raise escape analysis over the call graph + handler typestate (AST/CFG)",
     "C03": "key-normalisation agreement on the tag lookup table + taint-lite on the remainder slice",
-    "C04": "data-dependence of the duplicate-detection sort key; spelling-accessor taint in validator branches",
-    "C05": "guard dominance, abstract-hook conformance, writer/reader constant-table agreement",
+    "C04": "data-dependence of the duplicate-detection sort key; spelling-accessor taint in validator branches; loop-carried-state and silent-break lints on the CFG (reaching definitions)",
+    "C05": "guard dominance, abstract-hook conformance, writer/reader constant-table agreement, loop-carried-state lint, reader keyword agreement",
     "C06": "alias/effect analysis (forbidden-origin mutation) + sentinel-set agreement",
     "C07": "path-sensitive push/pop balance on the CFG, label data-dependence, nullable-use dominance",
-    "C08": "isinstance-guard dominance on JSON-typed values, accessor-chain agreement, wiring, push/pop balance",
-    "C09": "typestate (form store paired with flag store), guard dominance, copy-provenance effect analysis, wiring",
+    "C08": "isinstance-guard dominance on JSON-typed values, accessor-chain agreement, regex-AST agreement, last-iteration-only lint, wiring, push/pop balance",
+    "C09": "typestate (form store paired with flag store), guard dominance, copy-provenance effect analysis, key-normalisation agreement, wiring",
     "C10": "key-normalisation agreement on the open-scope table, construction dominance, wiring",
     "C11": "normalisation-set agreement between validation and conversion lookups, nullable-use dominance",
     "C12": "registry signature binding, decorate-once abstract state over the CFG, warning-filter taint, table order",
-    "C13": "interface conformance of both schema classes, refusal-guard dominance",
+    "C13": "interface conformance of both schema classes, refusal-guard dominance, strip-family lint, memo-key completeness (parameter dependence of cached value vs key)",
     "C14": "validator-table wiring and signature conformance, section-enum iteration, push/pop balance",
     "C15": "alias/effect analysis over the search closure, close-or-raise dominance in the parser",
     "C16": "argument-propagation agreement, in-place prune recognition, issue-drop lint, status taint, merge order",
     "C17": "alias/effect analysis of do_op, PARAMS/constructor/use agreement, dominance and bracketing in the dispatcher",
-    "C18": "dominance/ordering of I/O sinks on the CFG, reaching-definition provenance of the path read",
-    "C19": "lock typestate on the CFG, temp-then-rename pairing, lock-held call-graph fixpoint, handler lint",
-    "C20": "guard dominance and open/close pairing on the CFG",
+    "C18": "dominance/ordering of I/O sinks on the CFG, reaching-definition provenance of the path read, tested-value = used-value (equal reaching definitions)",
+    "C19": "lock typestate on the CFG, temp-then-rename pairing, lock-held call-graph fixpoint, fetch-under-lock reachability, handler lint",
+    "C20": "guard dominance and open/close pairing on the CFG, key-normalisation agreement on the open-process table",
 }
 
 NOTE = ("Decides only the structural clauses named in DESIGN.md section 5 (necessary conditions), not the behavioural "
@@ -63,7 +63,7 @@ def main():
             "evidence_file": "/verif/evidence/%s.json" % pid,
             "replay_cmd_template": "./check %s --replay {path}" % pid,
             "engine": "sa",
-            "level_claimed": {"category": "other", "text": getattr(mod, "LEVEL_TEXT", ""),
+            "level_claimed": {"category": "other", "text": (getattr(mod, "LEVEL_TEXT", "") + " " + getattr(mod, "LEVEL_EXTRA", "")).strip(),
                               "design_ref": "DESIGN.md section 5, %s" % pid},
             "level_note": NOTE,
             "technique": "static analysis: " + TECH[pid],
